@@ -67,6 +67,22 @@ func runC13(c *rt.Ctx) {
 	for i := 0; i < ns; i++ {
 		c.Case("stress", i, func(o *rt.Obs) { c13Stress(c, o) })
 	}
+	// reader × writer single-preemption schedules on a real directory through
+	// pkg/storage/file.go (quick: load, compact, merge writers; thorough: all)
+	for wi := range writers {
+		if c.Quick() && wi != 0 && wi != 3 && wi != 5 {
+			continue
+		}
+		for role := 0; role < 2; role++ {
+			wi, role := wi, role
+			c.Case("realfs-pair", wi*2+role, func(o *rt.Obs) {
+				c12Real = true
+				defer func() { c12Real = false }()
+				o.Count("cases_on_real_file_engine", 1)
+				c13Pair(c, o, writers[wi], role == 0, true)
+			})
+		}
+	}
 }
 
 // ---- (a) immutability over histories ------------------------------------------------
@@ -339,6 +355,7 @@ func c13Pair(c *rt.Ctx, o *rt.Obs, wop c12Op, readerFirst bool, fileLike bool) {
 		o.Violation("setup-failed", err.Error())
 		return
 	}
+	defer store.Discard(base.eng.B)
 	writers := []c12ClientSpec{{"w", []c12Op{wop}}}
 	first, second := "r0", "w"
 	if !readerFirst {
@@ -370,6 +387,10 @@ func c13Pair(c *rt.Ctx, o *rt.Obs, wop c12Op, readerFirst bool, fileLike bool) {
 			return
 		}
 		c13Judge(c, o, res, what)
+		if c12Real {
+			o.Count("schedules_on_real_file_engine", 1)
+			store.Discard(res.w.eng.B)
+		}
 	}
 }
 
